@@ -180,6 +180,10 @@ func (c *SCIONClient) measureClockOffsetSCION(ctx context.Context, mtrcs *scionC
 			return time.Time{}, 0, err
 		}
 		remoteAddr.Host.IP = net.ParseIP(ntskeData.Server)
+		if remoteAddr.Host.IP == nil {
+			// the server named in the key exchange is network input and need not be an IP address
+			return time.Time{}, 0, errUnexpectedAddrType
+		}
 		remoteAddr.Host.Port = int(ntskeData.Port)
 		if remoteAddr.IA == localAddr.IA {
 			path = spath.Path{
